@@ -1,39 +1,164 @@
 import TracklibVerif.Model.Split
 import TracklibVerif.Drv.Util
 /-! Driver handler for C11. Commands:
-  split <markers as 0/1 string>   → pieces as lists of observation indices, `;`-separated
-                                    (an empty piece is `e`) ; no piece at all → `_`
-  marker <mode and|or> <thresholds ratlist> <rows: per observation the tested values, `nan` allowed>
+  split <markers as 0/1 string>   → `<pieces> <ids>`: pieces as lists of observation indices, `;`-separated
+                                    (an empty piece is `e`) ; no piece at all → `_` ; ids = the numbers
+                                    `count.begin.end` of the pieces' uids, `;`-separated
+  splitlim <limit> <markers> <points>  → the same for `split(track, name, limit)`; `limit` and the coordinates
+                                    (`x,y,z;x,y,z;…`, one point per observation) are IEEE bit patterns: the
+                                    model runs at `Float` with `Float.sqrt`
+  splitidx <limit> <indices> <points>  → `split(track, [indices], limit)`: pieces, or `err:index`
+  collsplit <markers|markers|…>   → `TrackCollection.split_segmentation`: pieces of every track in turn, the
+                                    observations being numbered through the whole collection
+  collseg <mode> <thresholds> <rows|rows|…>  → `TrackCollection.segmentation` then `split_segmentation`:
+                                    `<markers|markers|…> <pieces>`, or `err:index`
+  marker <mode and|or> <thresholds> <rows: per observation the tested values>
                                   → marker string (`_` for no observation), or `err:index`
-  segsplit <mode> <thresholds> <rows>  → `<marker string> <pieces>` : `segmentation()` then `split()` on its marker -/
+  segsplit <mode> <thresholds> <rows>  → `<marker string> <pieces>` : `segmentation()` then `split()` on its marker
+  segtrack <mode> <afs> <out> <thresholds> <size> <virtual columns> <feature table>
+                                  → the feature table after `segmentation()`, or `err:af` / `err:index`.
+                                    `afs` / `thresholds` are `s:<value>` (a bare value) or `l:<list>` (a list);
+                                    a table is `name=v,v,…;name=v,…`
+  segseq <size> <virtual columns> <feature table> (<mode> <afs> <out> <thresholds>)+
+                                  → the same after several successive calls on the same track (first error aborts)
+Values and thresholds are exact: a rational `p/q`, `inf`, `-inf`, and `nan` for a value. -/
 namespace TV.Drv.C11
 open TV.Split TV.Drv
 
 def showPieces (pieces : List (List Nat)) : String :=
   joinWith ";" (pieces.map (fun p => if p.isEmpty then "e" else ",".intercalate (p.map toString)))
 
-def splitIdx (ms : List Bool) : List (List Nat) := split ((List.range ms.length).zip ms)
+def showIds (ids : List PId) : String :=
+  joinWith ";" (ids.map (fun (c, b, e) => s!"{c}.{b}.{e}"))
+
+def splitIdx0 (ms : List Bool) : List (List Nat) := split ((List.range ms.length).zip ms)
 
 def showMarks (bs : List Bool) : String :=
   if bs.isEmpty then "_" else String.ofList (bs.map (fun b => if b then '1' else '0'))
 
-def rows? (rows : String) : Option (List (List (Option Rat))) :=
-  (splitTok rows ';').mapM (fun r => (splitTok r ',').mapM
-    (fun s => if s == "nan" then some none else (rat? s).map some))
+def marks? (m : String) : Option (List Bool) :=
+  if m == "_" then some []
+  else if m.toList.all (fun c => c == '0' || c == '1') then some (m.toList.map (· == '1'))
+  else none
+
+def ext? (s : String) : Option Ext :=
+  if s == "inf" then some .pinf else if s == "-inf" then some .ninf else (rat? s).map .fin
+def val? (s : String) : Option (Option Ext) := if s == "nan" then some none else (ext? s).map some
+def extList? (s : String) : Option (List Ext) := (splitTok s ',').mapM ext?
+def showVal : Option Ext → String
+  | none => "nan"
+  | some .pinf => "inf"
+  | some .ninf => "-inf"
+  | some (.fin r) => showRat r
+
+def rows? (rows : String) : Option (List (List (Option Ext))) :=
+  (splitTok rows ';').mapM (fun r => (splitTok r ',').mapM val?)
+
+/-- `s:<x>` → one value, `l:<list>` → a list -/
+def arg? {γ : Type} (f : String → Option γ) (s : String) : Option (Arg γ) :=
+  if s.startsWith "s:" then (f (s.drop 2).toString).map Arg.one
+  else if s.startsWith "l:" then ((splitTok (s.drop 2).toString ',').mapM f).map Arg.many
+  else none
+
+def table? (s : String) : Option (List (String × Col Ext)) :=
+  (splitTok s ';').mapM (fun e =>
+    match e.splitOn "=" with
+    | [nm, vs] => ((splitTok vs ',').mapM val?).map (fun c => (nm, c))
+    | _ => none)
+
+def showTable (t : List (String × Col Ext)) : String :=
+  joinWith ";" (t.map (fun p => p.1 ++ "=" ++ joinWith "," (p.2.map showVal)))
+
+def points? (s : String) : Option (List (Float × Float × Float)) :=
+  (splitTok s ';').mapM (fun p =>
+    match (splitTok p ',').mapM float? with
+    | some [x, y, z] => some (x, y, z)
+    | _ => none)
+
+/-- `Track.length()` of a piece of (index, point) observations -/
+def pieceLength (p : List (Nat × Float × Float × Float)) : Float := trackLength Float.sqrt (p.map Prod.snd)
+
+/-- successive `segmentation()` calls on one track; `none` = malformed request -/
+def segSeq (t : FTrack Ext) : List String → Option (Except String (FTrack Ext))
+  | [] => some (.ok t)
+  | mode :: afs :: out :: ths :: rest =>
+    match arg? some afs, arg? ext? ths with
+    | some a, some th =>
+      if mode == "and" || mode == "or" then
+        match segTrack Ext.fmax (mode == "and") t a out th with
+        | .ok t' => segSeq t' rest
+        | .error e => some (.error e)
+      else none
+    | _, _ => none
+  | _ => none
+
+/-- numbers the observations through the whole collection and splits every track -/
+def collPieces (tracks : List (List Bool)) : List (List Nat) :=
+  let offs := tracks.foldl (fun (acc : List Nat × Nat) t => (acc.1 ++ [acc.2], acc.2 + t.length)) ([], 0)
+  let tagged := (tracks.zip offs.1).map (fun (t, o) => ((List.range t.length).map (· + o)).zip t)
+  splitColl tagged
 
 def handle (cmd : String) (args : List String) : String :=
   match cmd, args with
   | "split", [m] =>
-    if m == "_" then showPieces (splitIdx [])
-    else if m.toList.all (fun c => c == '0' || c == '1') then showPieces (splitIdx (m.toList.map (· == '1')))
-    else "bad-request"
+    match marks? m with
+    | some ms =>
+      let ids := (splitU (fun _ => false) (fun _ => true) ((List.range ms.length).zip ms)).map Prod.fst
+      s!"{showPieces (splitIdx0 ms)} {showIds ids}"
+    | none => "bad-request"
+  | "splitlim", [lim, m, pts] =>
+    match float? lim, marks? m, points? pts with
+    | some limit, some ms, some ps =>
+      if ms.length != ps.length then "bad-request" else
+      let obs := ((List.range ms.length).zip ps).zip ms
+      let ids := (splitU (fun p => limitShort limit (pieceLength p)) (fun p => limitKeepTail limit (pieceLength p)) obs).map Prod.fst
+      s!"{showPieces ((splitLimit pieceLength limit obs).map (List.map Prod.fst))} {showIds ids}"
+    | _, _, _ => "bad-request"
+  | "splitidx", [lim, idx, pts] =>
+    match float? lim, intList? idx, points? pts with
+    | some limit, some src, some ps =>
+      match TV.Split.splitIdx (fun p => limitShort limit (pieceLength p)) ((List.range ps.length).zip ps) src with
+      | some pieces => showPieces (pieces.map (List.map Prod.fst))
+      | none => "err:index"
+    | _, _, _ => "bad-request"
+  | "collsplit", [ms] =>
+    match (ms.splitOn "|").mapM marks? with
+    | some tracks => showPieces (collPieces tracks)
+    | none => "bad-request"
+  | "collseg", [mode, ths, rowss] =>
+    match extList? ths, (rowss.splitOn "|").mapM rows? with
+    | some th, some tracks =>
+      if mode == "and" || mode == "or" then
+        match tracks.mapM (markers Ext.fmax (mode == "and") th) with
+        | some ms => s!"{"|".intercalate (ms.map showMarks)} {showPieces (collPieces ms)}"
+        | none => "err:index"
+      else "bad-request"
+    | _, _ => "bad-request"
+  | "segseq", size :: virt :: feats :: calls =>
+    match size.toNat?, table? virt, table? feats with
+    | some n, some v, some f =>
+      if calls.isEmpty then "bad-request" else
+      match segSeq { size := n, virt := v, feats := f } calls with
+      | some (.ok t) => showTable t.feats
+      | some (.error e) => "err:" ++ e
+      | none => "bad-request"
+    | _, _, _ => "bad-request"
+  | "segtrack", [mode, afs, out, ths, size, virt, feats] =>
+    match arg? some afs, arg? ext? ths, size.toNat?, table? virt, table? feats with
+    | some a, some th, some n, some v, some f =>
+      if mode == "and" || mode == "or" then
+        match segTrack Ext.fmax (mode == "and") { size := n, virt := v, feats := f } a out th with
+        | .ok t => showTable t.feats
+        | .error e => "err:" ++ e
+      else "bad-request"
+    | _, _, _, _, _ => "bad-request"
   | c, [mode, ths, rows] =>
     if c != "marker" && c != "segsplit" then "bad-request" else
-    match ratList? ths, rows? rows with
+    match extList? ths, rows? rows with
     | some th, some rs =>
       if mode == "and" || mode == "or" then
-        match markers (mode == "and") th rs with
-        | some bs => if c == "marker" then showMarks bs else s!"{showMarks bs} {showPieces (splitIdx bs)}"
+        match markers Ext.fmax (mode == "and") th rs with
+        | some bs => if c == "marker" then showMarks bs else s!"{showMarks bs} {showPieces (splitIdx0 bs)}"
         | none => "err:index"
       else "bad-request"
     | _, _ => "bad-request"
